@@ -351,7 +351,13 @@ func (b *Built) structFor(g *GroupNode, c *CmdNode) reflect.Type {
 			if c.ArgsReq {
 				t += " " + tagKV("required", "yes")
 			}
-			fs = append(fs, reflect.StructField{Name: "Pos", Type: reflect.StructOf(afs), Tag: reflect.StructTag(t)})
+			if k := c.ArgSplit; k > 0 && k < len(afs) {
+				// two positional-args structs on one command: their fields follow one another
+				fs = append(fs, reflect.StructField{Name: "Pos", Type: reflect.StructOf(afs[:k]), Tag: reflect.StructTag(t)})
+				fs = append(fs, reflect.StructField{Name: "Pos2", Type: reflect.StructOf(afs[k:]), Tag: reflect.StructTag(t)})
+			} else {
+				fs = append(fs, reflect.StructField{Name: "Pos", Type: reflect.StructOf(afs), Tag: reflect.StructTag(t)})
+			}
 		}
 	}
 	return reflect.StructOf(fs)
@@ -388,8 +394,14 @@ func (b *Built) bind(v reflect.Value, g *GroupNode, c *CmdNode) {
 		}
 		if len(c.Args) > 0 {
 			pv := v.FieldByName("Pos")
+			pv2 := v.FieldByName("Pos2")
 			for i, a := range c.Args {
-				f := pv.Field(i)
+				var f reflect.Value
+				if pv2.IsValid() && i >= pv.NumField() {
+					f = pv2.Field(i - pv.NumField())
+				} else {
+					f = pv.Field(i)
+				}
 				b.args[c.idx-1] = append(b.args[c.idx-1], f)
 				b.argN[c.idx-1] = append(b.argN[c.idx-1], a)
 				for _, t := range a.Init {
